@@ -362,8 +362,15 @@ const AllFields = "mode size mtime ctime ino nlink target sum"
 // Resolve follows `target` starting in directory `dir` (an absolute, physical
 // path) the way the kernel does: component by component, ".." applied to the
 // resolved directory, links followed (hop limit 40). Past the first missing
-// component resolution continues lexically. loop=true when the hop limit hit.
+// component resolution continues lexically. loop=true when the hop limit hit
+// or the path runs through a non-directory: it leads nowhere.
 func Resolve(dir, target string) (resolved string, exists bool, loop bool) {
+	resolved, exists, loop, _ = ResolveVia(dir, target)
+	return
+}
+
+// ResolveVia is Resolve, also reporting the links that were followed on the way.
+func ResolveVia(dir, target string) (resolved string, exists bool, loop bool, via []string) {
 	hops := 0
 	var res func(cur string, rest []string, missing bool) (string, bool, bool)
 	res = func(cur string, rest []string, missing bool) (string, bool, bool) {
@@ -399,6 +406,7 @@ func Resolve(dir, target string) (resolved string, exists bool, loop bool) {
 					cur = next
 					continue
 				}
+				via = append(via, next)
 				tparts := strings.Split(t, "/")
 				if strings.HasPrefix(t, "/") {
 					cur = "/"
@@ -406,6 +414,10 @@ func Resolve(dir, target string) (resolved string, exists bool, loop bool) {
 				// resolve the link's own target first, then continue with rest
 				rest = append(append([]string{}, tparts...), rest...)
 				continue
+			}
+			if !fi.IsDir() && len(rest) > 0 {
+				// the kernel refuses to walk through a non-directory (ENOTDIR): the path leads nowhere
+				return next, false, true
 			}
 			cur = next
 		}
@@ -415,7 +427,8 @@ func Resolve(dir, target string) (resolved string, exists bool, loop bool) {
 	if strings.HasPrefix(target, "/") {
 		start = "/"
 	}
-	return res(start, strings.Split(target, "/"), false)
+	resolved, exists, loop = res(start, strings.Split(target, "/"), false)
+	return
 }
 
 // RealPath resolves every link in p (which must exist).
